@@ -1,12 +1,143 @@
-/- Drv/C07.lean — driver handler for property C07 (line protocol; core-only imports). -/
-import FunsorVerif.Core.Sexp
-import FunsorVerif.Core.XR
-namespace FV.Drv.C07
-open FV
+/- Drv/C07.lean — driver handler for property C07 (line protocol; core-only imports).
 
-/-- `args` are the top-level S-expressions following the property tag on the request line. -/
+   C07 run (<step>*)          run a history from the empty state; one observation per step
+   C07 key <mcls> (<argtok>*)  metaclass normalisation + make_hash_key of one call
+   C07 table                   the generated class table (name, metaclass, #fields)
+
+   step   ::= (obs MINSTAMP)   -- emit an observation here
+            | (alloc SLOT ID) | (mk SLOT CLS CYC "mcls" (<argtok>*) NID) | (drop SLOT)
+            | (reclaim ID) | (sweep) | (gc) | (rebuild SRC DST ((OLD NEW)*))
+   argtok ::= (i INT) | (b BOOL) | (f P Q) | nz | (nan OID) | (s "str") | none | (o ID) | (a ID)
+            | lp | rp | fl | fr | dict
+   obs    ::= (ok (roots (SLOT ID)*) (objs (ID CLS STAMP)*) (arrs (ID SERIAL)*) (keys (CLS ID tok*)*)
+                  (ncache N M))
+            | (err NAME STEPINDEX)     -- the run stops at the first step whose guard fails
+-/
+import FunsorVerif.Core.Sexp
+import FunsorVerif.Model.C07
+import FunsorVerif.Gen.C07Table
+namespace FV.Drv.C07
+open FV FV.C07
+
+def parseArgTok : Sexp → Option ArgTok
+  | .atom "nz" => some .negz
+  | .atom "none" => some .none
+  | .atom "lp" => some .lp
+  | .atom "rp" => some .rp
+  | .atom "fl" => some .fl
+  | .atom "fr" => some .fr
+  | .atom "dict" => some .dict
+  | .list [.atom "i", z] => z.asInt?.map .int
+  | .list [.atom "b", b] => b.asBool?.map .bool
+  | .list [.atom "f", p, q] => do some (.flt (← p.asInt?) (← q.asNat?))
+  | .list [.atom "nan", o] => o.asNat?.map .nan
+  | .list [.atom "s", .str s] => some (.str s)
+  | .list [.atom "o", i] => i.asNat?.map .obj
+  | .list [.atom "a", i] => i.asNat?.map .arr
+  | _ => Option.none
+
+def parseArgs (s : Sexp) : Option (List ArgTok) := do
+  let xs ← s.asList?
+  xs.mapM parseArgTok
+
+def parsePairs (s : Sexp) : Option (List (Nat × Nat)) := do
+  let xs ← s.asList?
+  xs.mapM fun
+    | .list [a, b] => do some (← a.asNat?, ← b.asNat?)
+    | _ => Option.none
+
+/-- A parsed request step: `mk` still carries the user-level args and the metaclass name. -/
+inductive Req where
+  | plain (st : Step)
+  | mk (slot cls : Nat) (cyc : Bool) (mcls : String) (args : List ArgTok) (nid : Nat)
+  | obs (minStamp : Nat)
+
+def parseStep : Sexp → Option Req
+  | .list [.atom "alloc", a, b] => do some (.plain (.alloc (← a.asNat?) (← b.asNat?)))
+  | .list [.atom "drop", a] => do some (.plain (.drop (← a.asNat?)))
+  | .list [.atom "reclaim", a] => do some (.plain (.reclaim (← a.asNat?)))
+  | .list [.atom "sweep"] => some (.plain .sweep)
+  | .list [.atom "gc"] => some (.plain .gc)
+  | .list [.atom "obs", a] => do some (.obs (← a.asNat?))
+  | .list [.atom "rebuild", a, b, m] => do
+      some (.plain (.rebuild (← a.asNat?) (← b.asNat?) (← parsePairs m)))
+  | .list [.atom "mk", slot, cls, cyc, .str mcls, args, nid] => do
+      some (.mk (← slot.asNat?) (← cls.asNat?) (← cyc.asBool?) mcls (← parseArgs args) (← nid.asNat?))
+  | _ => Option.none
+
+def tokSexp : Tok → Sexp
+  | .num p q => .list [.atom "n", Sexp.ofInt p, Sexp.ofNat q]
+  | .nan o => .list [.atom "nan", Sexp.ofNat o]
+  | .str s => .list [.atom "s", .str s]
+  | .none => .atom "none"
+  | .ref i => .list [.atom "r", Sexp.ofNat i]
+  | .lp => .atom "lp"
+  | .rp => .atom "rp"
+  | .fl => .atom "fl"
+  | .fr => .atom "fr"
+
+/-- Observation; objects allocated before `minStamp` (the pinned prelude) are left out of
+    `objs`/`keys` (their table entries never change; hits on them show in `roots`). -/
+def obsOf (s : St) (minStamp : Nat) : Sexp :=
+  let young := s.objs.filter fun p => p.2.stamp ≥ minStamp
+  let youngIds := young.map (·.1)
+  .list [.atom "ok",
+    .list (.atom "roots" :: s.roots.map fun r => .list [Sexp.ofNat r.1, Sexp.ofNat r.2]),
+    .list (.atom "objs" :: young.map fun p =>
+      .list [Sexp.ofNat p.1, Sexp.ofNat p.2.cls, Sexp.ofNat p.2.stamp]),
+    .list (.atom "arrs" :: s.arrs.map fun a => .list [Sexp.ofNat a.1, Sexp.ofNat a.2]),
+    .list (.atom "keys" :: (s.cache.filter fun e => youngIds.contains e.2).map fun e =>
+      .list (Sexp.ofNat e.1.1 :: Sexp.ofNat e.2 :: e.1.2.map tokSexp)),
+    .list [.atom "ncache", Sexp.ofNat s.cache.length, Sexp.ofNat s.objs.length]]
+
+def errObs (e : String) : Sexp := .list [.atom "err", .atom e]
+
+/-- The arity the generated class table declares for class index `cls` (funsor classes only). -/
+def arityOk (cls : Nat) (groups : List (List ArgTok)) : Bool :=
+  match FV.Gen.C07.classes[cls]? with
+  | some e => e.kind != "funsor" || groups.length == e.fields.length
+  | Option.none => false
+
+def stepReq (s : St) : Req → Except String St
+  | .obs _ => .ok s
+  | .plain st => (step s st).mapError Err.name
+  | .mk slot cls cyc mcls args nid =>
+    match splitTop args with
+    | Option.none => .error "bad-args"
+    | some groups =>
+      match normArgs mcls groups with
+      | Option.none => .error "bad-args"
+      | some gs =>
+        if !arityOk cls gs then .error "arity"
+        else (step s (.mk slot cls cyc gs.flatten nid)).mapError Err.name
+
+def runReqs : St → List Req → Nat → List Sexp → List Sexp
+  | _, [], _, acc => acc.reverse
+  | s, .obs m :: rs, n, acc => runReqs s rs (n + 1) (obsOf s m :: acc)
+  | s, r :: rs, n, acc =>
+    match stepReq s r with
+    | .error e => (.list [.atom "err", .atom e, Sexp.ofNat n] :: acc).reverse
+    | .ok s1 => runReqs s1 rs (n + 1) acc
+
 def handle (args : List Sexp) : String :=
   match args with
-  | _ => "err unimplemented"
+  | [.atom "run", .list steps] =>
+    match steps.mapM parseStep with
+    | Option.none => "err bad-step"
+    | some reqs => "ok " ++ toString (Sexp.list (runReqs St.init reqs 0 []))
+  | [.atom "key", .str mcls, as] =>
+    match parseArgs as with
+    | Option.none => "err bad-args"
+    | some a =>
+      match (splitTop a).bind (normArgs mcls) with
+      | Option.none => "ok declined"
+      | some gs =>
+        match mkKey gs.flatten with
+        | Option.none => "ok declined"
+        | some k => "ok " ++ toString (Sexp.list (k.map tokSexp))
+  | [.atom "table"] =>
+    "ok " ++ toString (Sexp.list (FV.Gen.C07.classes.map fun e =>
+      .list [.str e.name, .str e.kind, .str e.mcls, Sexp.ofNat e.fields.length]))
+  | _ => "err bad-request"
 
 end FV.Drv.C07
